@@ -210,7 +210,7 @@ func init() {
 		ID: "C01",
 		Rule: "CNF formulas from seeded generators (messy tiny/small formulas with empty, unit, duplicate-literal, tautological and repeated clauses and unused declared variables; uniform 2/3-SAT near threshold with 5..70 variables; pigeonhole; parity chains; implication chains of 4..40 steps written against the direction of propagation; a 3-SAT part plus four clauses of more than a thousand literals), each through one front-end (ParseSlice / ParseSliceNb / ParseCNF with free DIMACS layout) and one configuration (certificate on/off x learned-clause limit default/4/16). A case is non-trivial when parsing left the status undetermined so that the CDCL search ran; distinct = distinct (formula, front-end, configuration).",
 		Gens:    cnfGens(),
-		Slices:  []SliceRef{{"XQUEUE", 600, 20000}, {"XWATCH", 500, 20000}},
+		Slices:  []SliceRef{{"XQUEUE", 600, 20000}, {"XWATCH", 500, 20000}, {"XSEARCH", 800, 30000}, {"XINTCODE", 150, 6000}},
 		Extra:   []ExtraGen{{Gen{Name: "unit-learning-gadgets", Make: func(r *Rng, tier string) interface{} { return genUnitGadgets(r, tier) }}, 40, 600}},
 		Run:     func(o *Oracle, d json.RawMessage, oc *Outcome) { runCnfCase(o, d, oc, "C01") },
 		Cases:   defCases(2500, 40000),
